@@ -440,6 +440,11 @@ func resolveAggregates(
 						orderBy,
 						fields,
 					)
+					if hostSelect, isSelect := host.(*Select); hasHost && isSelect {
+						// The matching join may have been added only to evaluate a filter, in which
+						// case its documents are not resolved. The aggregate needs all of them.
+						hostSelect.SkipResolve = false
+					}
 				}
 			}
 
